@@ -203,3 +203,15 @@ Print Assumptions C13_to_asm_marks_undecodable.
 
 Example C13_to_asm_marks_example : to_asm [x76; x4c] = Ok "OP_DUP [error]"%string /\ tokens p2pkh_ex2.
 Proof. split; [vm_compute; reflexivity|]. apply decode_ok_iff_tokens. vm_compute. reflexivity. Qed.
+
+(** State inventory (tie, translator part): every Go struct the model of this property represents has, in the
+    source as it is NOW (gen/Structs.v, regenerated on every run), exactly the fields - names, types, order - the
+    model was written against (model/StateInventory.v).  New state in these objects (a memoised digest, a cached
+    document, a remembered operand) is state the theorems above do not speak about: this is the obligation that
+    stops checking then. *)
+From GoBT Require gen.Structs model.StateInventory.
+Theorem C13_state_inventory :
+  forall k, In k (StateInventory.group_of "C13") ->
+  exists f, StateInventory.lookup_gen gen.Structs.structs k = Some f /\ StateInventory.lookup_model k = Some f.
+Proof. apply StateInventory.inventory_ok_spec. vm_compute. reflexivity. Qed.
+Print Assumptions C13_state_inventory.
